@@ -196,6 +196,63 @@ def contact_init(res):
                     f"arena), and stages that skip the contact later leave it so — the value read there depends on earlier calls")
 
 
+
+def sensor_output_written(res):
+    """R-SENSOR-WRITTEN: the function that either computes a sensor or reads its held / delayed sample from the history buffer
+    (found by role in engine_sensor.c: it reads m->sensor_history and hands its output-pointer parameter to callees) hands that
+    output to a writer on every path.  sensordata is not part of the integration state: a path that leaves it as it was makes
+    the reading depend on what the receiving mjData held before (after mj_setState / mj_copyState into another mjData)."""
+    from .. import paths
+    SENS = "src/engine/engine_sensor.c"
+    res.rule("R-SENSOR-WRITTEN", "the compute-or-read routine of the sensor stage writes its output on every path", floor=1)
+    u = engine.unit(SENS)
+    cands = []
+    for name, fn in u.funcs.items():
+        if (fn.get("file") or u.tu) != u.tu:
+            continue
+        outs = [p_ for p_ in cir.params(fn) if (p_.get("t") or "").replace(" ", "") == "mjtNum*"]
+        if len(outs) != 1:
+            continue
+        reads_hist = any(x.get("k") == "MemberExpr" and x.get("n") == "sensor_history" for x in cir.walk(fn))
+        callees = {cir.callee(c) for c in cir.calls(fn) if any(cir.text(a) == outs[0].get("n") for a in cir.args(c))}
+        if reads_hist and len(callees) >= 2:
+            cands.append((fn, outs[0].get("n")))
+    if len(cands) != 1:
+        raise AnalysisError(f"{SENS}: the compute-or-read routine (reads m->sensor_history, hands its mjtNum* output to two or more "
+                            f"callees) was not identified ({[f.get('n') for f, _ in cands]})")
+    fn, out = cands[0]
+
+    class W(paths.Rule):
+        def initial(self, f):
+            return False
+
+        def call(self, st, node, name, ctx):
+            return st or any(cir.text(a) == out for a in cir.args(node))
+
+        def assign(self, st, node, ctx):
+            if node.get("k") != "VarDecl" and cir.text(cir.kids(node)[0]).startswith(out + "["):
+                return True
+            return st
+
+        def ret(self, st, node, ctx):
+            if not st:
+                ctx.report(node, "return")
+
+        def fallthrough(self, st, ctx):
+            if not st:
+                ctx.report(ctx.fn, "end")
+    ctx = paths.explore(W(), u, fn)
+    key = f"{fn.get('n')}:{out}"
+    if ctx.reports:
+        r = ctx.reports[0]
+        res.bad("R-SENSOR-WRITTEN", key, SENS, r["line"],
+                f"{fn.get('n')} reaches its {r['msg']} at line {r['line']} on a path that hands `{out}` to no writer: the sensor keeps the "
+                f"value the mjData held before — after a state transfer into another mjData the reading (and whatever a control "
+                f"callback derives from it) depends on that mjData's history")
+    else:
+        res.ok("R-SENSOR-WRITTEN", key, None)
+
+
 def run(res, tier):
     g = callgraph.build()
     roots = [g.find(n) for n in ("mj_step", "mj_step1", "mj_step2", "mj_forward", "mj_forwardSkip", "mj_inverse", "mj_inverseSkip")]
@@ -306,6 +363,7 @@ def run(res, tier):
 
     arena_stale(res, g, set(aptr))
     contact_init(res)
+    sensor_output_written(res)
     # ---------------------------------------------------------------- R-ITERATE-INIT
     # The solvers start from (qacc, efc_force).  The function that prepares that starting point (it reads qacc_warmstart and is
     # called by the constraint stage before the solver dispatch) must define both on every path: efc_force lives in the arena,
